@@ -243,13 +243,18 @@ def boolean(ctx, depth, center, scale, envs, nrows, relation_log):
             nb = geo.ref(b)
             M = 3000
             okflag = True
+            # the box of both operands (the hull of a cut is the box of A: the part of B outside A would never be seen)
+            fbox = geo._hull_box(geo.ref({"op": "union", "a": a, "b": b}), envs, nrows)
             for i in range(nrows):
-                P = box[i, 0::2] + rng.random((M, box.shape[1] // 2)) * (box[i, 1::2] - box[i, 0::2])
+                P = fbox[i, 0::2] + rng.random((M, fbox.shape[1] // 2)) * (fbox[i, 1::2] - fbox[i, 0::2])
                 env = {k: np.repeat(v[i:i + 1], M, 0) for k, v in envs.items()}
-                ia, ib = na.phi(P, env) <= 0, nb.phi(P, env) <= 0
-                if op == "union" and (ia & ib).any():
+                # with a margin (level functions are distance-like): a sliver of B outside A that is too thin to be hit by
+                # the sample would still falsify the declaration
+                mg = 0.02 * scale
+                fa_, fb_ = na.phi(P, env), nb.phi(P, env)
+                if op == "union" and ((fa_ <= mg) & (fb_ <= mg)).any():
                     okflag = False
-                if op == "cut" and (ib & ~ia).any():
+                if op == "cut" and ((fb_ <= mg) & (fa_ > -mg)).any():
                     okflag = False
             if not okflag:
                 s.pop("flag")
